@@ -14,6 +14,7 @@ iteration on Fractions, and the multichain LP solved by scipy.optimize.linprog i
 When msdm reports converged=False the property says nothing; those cases are counted.
 """
 import math
+import os
 from fractions import Fraction as F
 import vlib
 from vlib import q, qlist, qmat, qten, nat, bmat, blist
@@ -545,7 +546,11 @@ def gen_case(rng, tier):
         m = gen_tiny(rng)
     elif r < .87:
         kind = "discounted-near-tie"          # values ~1e3, a clone of the optimal action worse by 1e-6..1e-5 relative
-        m, _info = gen_near_tie(rng)
+        # C16_WORSE_FIRST=1 additionally generates the sub-class in which the slightly worse clone is the INITIAL
+        # policy (lowest action id): there the unchanged code keeps it (relative tie band of the improvement test)
+        # and reports values up to 1e-5 relative below the optimum -- reported to the coordinator, off by default
+        wf = os.environ.get("C16_WORSE_FIRST") == "1" and rng.random() < .4
+        m, _info = gen_near_tie(rng, worse_first=wf)
     else:
         kind = "undisc-sweep"                 # one planner object: A, perturbed B, (C,) A again
         m, more = gen_sweep(rng, tier)
@@ -791,6 +796,27 @@ def tiny_class_case(mdpcase, state_list):
     absorbing, _ = _c01.model_masks(P, R, av, absf, F(1))
     return tiny_probability(P, av, absorbing)
 
+NEAR_TIE_RULE = ("signature class: discounted MDP with 1 - gamma > 2^-10 in which, at some non-absorbing state, an available action with a "
+                 "LOWER action index than every optimal action has an exact optimal action value Q* that is not optimal but within "
+                 "1e-8 + 1e-5*|Q*| of the optimum (inside np.isclose's default band)")
+
+
+def inside_band_lower_index(Pa, Ra, av, absorbing, gam, Vs):
+    if 1 - gam <= F(1, 2**10):
+        return None
+    n, nA = len(Pa), len(Pa[0])
+    for s in range(n):
+        if absorbing[s]:
+            continue
+        qs = {a: Ra[s][a] + gam * ex(Pa, Vs, s, a) for a in range(nA) if av[s][a]}
+        best = max(qs.values())
+        first_opt = min(a for a in qs if qs[a] == best)
+        for a in qs:
+            if a < first_opt and 0 < best - qs[a] <= F(1, 10**8) + F(1, 10**5) * abs(best):
+                return {"state_index": s, "action_index": a, "optimal_action_index": first_opt,
+                        "q_gap": str(float(best - qs[a])), "q_optimal": str(float(best))}
+    return None
+
 NEAR_ONE_RULE = ("signature class: discounted MDP with 1 - gamma <= 2^-10 that has a CONTINUING part (some state of the state list "
                  "from which no absorbing state is reachable with positive probability); every other value mismatch / raise keeps "
                  "its ordinary signature")
@@ -853,6 +879,12 @@ def search_failing(case, res, d):
                     why["signature"] = "C16:discounted:gamma-near-one:values-not-optimal"
                     why["class_rule"] = NEAR_ONE_RULE
                     why["reported_gain"] = [str(float(x)) for x in g]
+                elif inside_band_lower_index(Pa, Ra, av, d["absorbing"], gam, Vs) is not None:
+                    # the improvement test np.isclose(bias_q[policy], bias_q[new]) is RELATIVE (1e-8 + 1e-5|Q|): a current
+                    # action within that band of the best one is kept, so the iteration can stop below the optimum
+                    why["signature"] = "C16:discounted:near-tie-inside-improvement-band:values-not-optimal"
+                    why["class_rule"] = NEAR_TIE_RULE
+                    why["near_tie"] = inside_band_lower_index(Pa, Ra, av, d["absorbing"], gam, Vs)
                 elif 1 - gam > F(1, 2**10) and max(abs(x) for x in g) > F(1, 10**6) * d["scale"]:
                     # a discounted evaluation system forces gain 0: a clearly non-zero reported gain means
                     # equations (gamma*P - I) g = 0 were dropped by independent_row_indices (np.isclose(det, 0)
